@@ -1078,21 +1078,29 @@ impl Model {
             .filter(|g| g.delivered_to.is_empty() && self.content_is(g.idx, topic, payload))
             .map(|g| g.idx)
             .min();
-        let via_group: Option<String> = self.clients[ci]
+        let candidates: Vec<String> = self.clients[ci]
             .subs
             .iter()
-            .find(|s| {
+            .filter(|s| {
                 s.group.is_some()
                     && (any_qos || s.serves(qos))
                     && ref_matches(topic, &s.match_filter)
                     && (s.active || newest_undelivered.is_some_and(|i| s.closed_at.is_some_and(|c| i < c)))
             })
-            .and_then(|s| s.group.clone());
+            .filter_map(|s| s.group.clone())
+            .collect();
+        // a member of several groups on one topic gets a message once per group: the
+        // forward is attributed to a group that still owes this content to somebody
+        let via_group: Option<String> = candidates
+            .iter()
+            .find(|g| self.gmsgs.iter().any(|m| m.group == **g && m.delivered_to.is_empty() && self.content_is(m.idx, topic, payload)))
+            .or(candidates.first())
+            .cloned();
         if let Some(g) = via_group {
             if window_slot {
                 self.push_outstanding(ci, pkid, None);
             }
-            self.shared_forward(ci, &g, topic, payload);
+            self.shared_forward(ci, &g, topic, payload, candidates.len() > 1);
             return;
         }
         }
@@ -1184,7 +1192,9 @@ impl Model {
         }
     }
 
-    fn shared_forward(&mut self, ci: usize, g: &str, topic: &str, payload: &[u8]) {
+    /// `several`: this client is in more than one group that matches the topic (which copy
+    /// belongs to which group is a guess; no order is promised between groups)
+    fn shared_forward(&mut self, ci: usize, g: &str, topic: &str, payload: &[u8], several: bool) {
         let name = super::NAMES[ci];
         // oldest message of the group with this content that this member has not received
         let mut hit: Option<usize> = None;
@@ -1217,7 +1227,33 @@ impl Model {
                 c.clean && (!c.registered || c.epoch != *on)
             }
         });
+        // Several groups on one topic: a member of two of them gets the message once per
+        // group, and which copy belongs to which group cannot be seen on the wire. Before a
+        // second forward inside this group is called a duplicate, an earlier forward to a
+        // member that is also in another group which still owes this message to somebody
+        // is re-attributed to that group.
+        let mut moved = false;
         if !self.gmsgs[k].delivered_to.is_empty() && !excused {
+            let earlier: Vec<(usize, u32)> = self.gmsgs[k].delivered_to.iter().cloned().zip(self.gmsgs[k].delivered_on.iter().cloned()).collect();
+            for (pos, (r, on)) in earlier.into_iter().enumerate() {
+                let other = self.gmsgs.iter().position(|m| {
+                    m.idx == idx && m.group != g && m.delivered_to.is_empty() && m.members_at_accept.iter().any(|(mm, _)| *mm == r)
+                });
+                if let Some(k2) = other {
+                    self.gmsgs[k].delivered_to.remove(pos);
+                    self.gmsgs[k].delivered_on.remove(pos);
+                    self.gmsgs[k2].delivered_to.push(r);
+                    self.gmsgs[k2].delivered_on.push(on);
+                    let g2 = self.gmsgs[k2].group.clone();
+                    if let Some(e) = self.clients[r].shared_seen.iter_mut().rev().find(|(sg, i)| sg == g && *i == idx) {
+                        e.0 = g2;
+                    }
+                    moved = true;
+                    break;
+                }
+            }
+        }
+        if !self.gmsgs[k].delivered_to.is_empty() && !excused && !moved {
             let d = format!(
                 "message {topic}:{} of group {g} was forwarded to {name} after it had already been forwarded to {:?}",
                 String::from_utf8_lossy(payload),
@@ -1230,7 +1266,7 @@ impl Model {
         // acceptance order within one shared subscription (two groups read two logs: no order
         // is promised between them)
         if let Some((_, last)) = self.clients[ci].shared_seen.iter().rev().find(|(sg, _)| sg == g) {
-            if *last > idx {
+            if *last > idx && !several {
                 let last = *last;
                 self.v(
                     "shared_order",
